@@ -89,6 +89,14 @@ def run(ctx):
                     want.update(rl.rkey(r) for r in d["passes"])
             got = collections.Counter(rl.rkey(r) for r in offered)
             analysed = sorted(n for _, n, _ in batches)
+            # independent of the parser's bookkeeping: every template / function textually defined in a file named on the command
+            # line is analysed (when the project parsed without an error)
+            import re as _re
+            textual = sorted(n for rel in p["inputs"] for n in _re.findall(r"^(?:/\*[^\n]*?\*/ )?(?:template|function) (\w+)", p["files"][rel] if isinstance(p["files"][rel], str) else "", flags=_re.M))
+            if not any(r["level"] == "error" for r in parse) and sorted(set(textual)) != sorted(set(analysed)):
+                ctx.violation("user-input-definitions", {"stage": "L1 every definition of a user-specified file is analysed", "files": p["files"], "inputs": p["inputs"],
+                                                         "defined_in_named_files": textual, "analysed": analysed, "broken": None})
+                continue
             if got != want or analysed != sorted(d["name"] for d in iso["defs"]):
                 missing = [r for r in iso["parse"] + [x for d in iso["defs"] for x in d["gen"] + d["passes"]] if got[rl.rkey(r)] < want[rl.rkey(r)]]
                 ctx.violation("conservation", {"stage": "L1 conservation (offered = parse + per-definition reports, each once)",
